@@ -105,6 +105,16 @@ class IoPlan:
     def on_sys(self, name, args):
         self.sys_n += 1
         for i, f in enumerate(self.faults):
+            if f["site"] == "sys" and f["kind"] not in ("peer_dump", "peer_call"):
+                # an I/O error at the os level itself (reaches code that goes through pathlib / os.open as well): raised by
+                # the first call at or after the k-th that is not a stat (a failing stat reads as "does not exist", which
+                # legitimately sends the library down another path)
+                if self.sys_n >= int(f["at"]) and name not in ("stat", "lstat"):
+                    self.faults.pop(i)
+                    path = str(args[0]) if args else ""
+                    self.fired.append({"site": "sys", "kind": f["kind"], "at": self.sys_n, "call": name, "path": path})
+                    raise _oserror(f["kind"], path)
+                continue
             if f["site"] == "sys" and int(f["at"]) == self.sys_n:
                 self.faults.pop(i)
                 if f["kind"] == "peer_call" and self.peer_call is not None:
